@@ -913,6 +913,10 @@ func TestVP_C35_BigPreParse(t *testing.T) {
 		{"stream/ok", true, "mp-cl"},
 		{"buffered/noclose", false, "mp-noclose"},
 		{"stream/truncated", true, "mp-truncated"},
+		// the whole form incl. its closing boundary arrives, then the client goes away although
+		// Content-Length promised more (epilogue): parsing succeeded, the request as a whole did not
+		{"buffered/cut-after-closing-boundary", false, "mp-truncated-after"},
+		{"buffered/cut-inside-epilogue", false, "mp-truncated-epilogue"},
 	}
 	// one >16 MiB body, rendered once by mime/multipart and shared by all variants
 	big := &vpC35Form{boundary: "vpBigBoundary0123456789",
@@ -929,15 +933,24 @@ func TestVP_C35_BigPreParse(t *testing.T) {
 			cl = len(sent)
 		case "mp-truncated":
 			sent = body[:len(body)-5000]
+		case "mp-truncated-after":
+			cl = len(body) + 9
+		case "mp-truncated-epilogue":
+			sent = append(append([]byte(nil), body...), []byte("epilo")...)
+			cl = len(body) + 40
+		}
+		kind := v.kind
+		if strings.HasPrefix(kind, "mp-truncated") {
+			kind = "mp-truncated"
 		}
 		var w bytes.Buffer
 		w.Grow(len(sent) + 512)
 		fmt.Fprintf(&w, "POST /0 HTTP/1.1\r\nHost: vp\r\nContent-Type: multipart/form-data; boundary=%s\r\nContent-Length: %d\r\n\r\n", big.boundary, cl)
 		w.Write(sent)
 		h := &vpC35History{stream: v.stream, reqs: []*vpC35Req{
-			{kind: v.kind, form: big, body: sent, wire: w.Bytes(), callForm: true, readBody: false},
+			{kind: kind, form: big, body: sent, wire: w.Bytes(), callForm: true, readBody: false},
 		}}
-		if v.kind != "mp-truncated" {
+		if kind != "mp-truncated" {
 			h.reqs = append(h.reqs, &vpC35Req{kind: "plain-get", wire: []byte("GET /1 HTTP/1.1\r\nHost: vp\r\n\r\n")})
 		}
 		obs, after, statuses, _ := vpC35Serve(h, dir)
